@@ -24,6 +24,8 @@ R3 (K2) --local: with self.local set, get_master_branch() is never called and bo
 R4 (K1) both out-of-date checks dominate get_commit_builder (shared with C01-R4); _check_out_of_date_tree raises
    OutOfDateTree when the master tip differs from the tree's first parent.
 R5 (K1) uncommit(): the master tip is moved before the local tip, both under `not dry_run`.
+overwrite-always-moves-tip: every _update_revisions implementation (branch.py, git/branch.py) reaches its tip-setting call on
+every normal path when overwrite is true (third-round seed).
 Does not decide: that update/pull in a checkout leave local == master for all histories.
 """
 
@@ -137,7 +139,29 @@ def run(ctx):
     k2_unreachable(ctx, "R5-uncommit-dry-run", where, g, {"dry_run": True, "not dry_run": False}, sl, "a dry run moves no tip")
 
 
+    # ---- overwrite always moves the tip (bzr and git siblings) ---------------------------------------------------------
+    # `update` of a heavyweight checkout that is ahead of its master (commit --local) pulls from the master with
+    # overwrite=True: every _update_revisions implementation then reaches its tip-setting call on every normal path — a
+    # shortcut "the requested revision is already an ancestor of the target" must not apply under overwrite.
+    from ..cfg import build_cfg as _bcfg
+
+    TIP = ("set_last_revision_info", "_update_tip", "generate_revision_history", "_set_last_revision_info")
+    n_ur = 0
+    for rel_ in ("breezy/branch.py", "breezy/git/branch.py"):
+        for q_, f_ in repo.module(rel_).functions().items():
+            if not q_.endswith("._update_revisions") or "overwrite" not in [a.arg for a in f_.args.args]:
+                continue
+            n_ur += 1
+            gu = _bcfg(f_).without_exc_edges().assume({"overwrite": True, "not overwrite": False, "_mod_revision.is_null(stop_revision)": False})
+            tip = [n.id for n in gu.nodes if any((call_attr(c) or norm(c.func)) in TIP for c in n.calls())]
+            r_ = gu.reach([gu.entry], avoid=set(tip), include_src=True)
+            w_ = gu.path([gu.entry], [gu.exit], avoid=set(tip)) if gu.exit in r_ else None
+            ctx.check("overwrite-always-moves-tip", f"{rel_}:{q_}", bool(tip) and gu.exit not in r_, f"{q_}: with overwrite the tip-setting call is reached on every normal path", message=f"{q_} can return under overwrite=True without setting the target's tip (a shortcut for 'already an ancestor'): `update` of a checkout that is ahead of its master leaves the local branch where it was, out of step with the master, and every later commit is refused with BoundBranchOutOfDate", witness=gu.show_path(w_) if w_ else None)
+    ctx.require(n_ur >= 2, f"only {n_ur} _update_revisions implementations with an overwrite parameter found")
+
+
 MUTANTS = [
+    Mutant("git pull skips the tip when the revision is already merged, overwrite or not", "breezy/git/branch.py", "        _update_tip(self.source, self.target, self._last_revid, overwrite)\n        return head, refs\n", "        if self.target.repository.get_graph().is_ancestor(self._last_revid, self.target.last_revision()):\n            return head, refs\n        _update_tip(self.source, self.target, self._last_revid, overwrite)\n        return head, refs\n", expect="overwrite-always-moves-tip"),
     Mutant("local tip set before the master import", CM, "        if not self.builder.updates_branch:\n            self._process_pre_hooks(old_revno, new_revno)\n", "        if not self.builder.updates_branch:\n            self._process_pre_hooks(old_revno, new_revno)\n            self.branch.set_last_revision_info(new_revno or 1, self.rev_id)\n", expect="R1-master-first"),
     Mutant("BoundBranchOutOfDate raise dropped", CM, "        if local_revid != master_revid:\n            raise errors.BoundBranchOutOfDate(self.branch, self.master_branch)\n", "        if local_revid != master_revid:\n            mutter(\"bound branch out of date\")\n", expect="R2-out-of-date-refused"),
     Mutant("tips compared against the wrong value", CM, "        local_revid = self.branch.last_revision()\n        if local_revid != master_revid:", "        local_revid = master_revid\n        if local_revid != master_revid:", expect="R2-tips-compared"),
